@@ -95,11 +95,19 @@ def call_cost(thunk):
     that a pathologically expensive (class model, document) pair cannot eat the
     budget; never influences an oracle.
     """
+    import os
     import sys
+    import yaml
+    import yatiml
     n = [0]
+    # only calls inside yatiml, PyYAML and generated classes: the caches of re,
+    # typing and logging (warm or cold, evicted or not) must not influence the
+    # enumeration size, or a plan would not repeat exactly
+    prefixes = (os.path.dirname(yatiml.__file__) + os.sep, os.path.dirname(yaml.__file__) + os.sep,
+                GEN_PREFIX)
 
     def prof(frame, event, arg):
-        if event == 'call':
+        if event == 'call' and frame.f_code.co_filename.startswith(prefixes):
             n[0] += 1
     old = sys.getprofile()
     sys.setprofile(prof)
